@@ -49,7 +49,9 @@ def run(repo: Repo, chk: Check, thorough: bool = False) -> None:
                'a config parser is instantiated outside options.get_parser: values read through it bypass the argparse types and converters',
                repo.loc(repo.funcs[q].mod, c))
     vp = [c for _, nm, c in uses if nm == 'ValidatorParser']
-    ok = len(vp) == 1 and len(vp[0].args) == 2 and '_config_file_parser' in norm(vp[0].args[0]) and norm(vp[0].args[1]) == 'parser' and \
+    pv = {t.id for n in gp.walk() if isinstance(n, ast.Assign) and isinstance(n.value, ast.Call) and call_name(n.value) == 'ArgumentParser'
+          for t in n.targets if isinstance(t, ast.Name)}
+    ok = len(vp) == 1 and len(vp[0].args) == 2 and '_config_file_parser' in norm(vp[0].args[0]) and norm(vp[0].args[1]) in pv and \
         any(isinstance(n, ast.Assign) and any('_config_file_parser' in norm(t) for t in n.targets) and n.value is vp[0] for n in gp.walk())
     chk.ob('R20.1', f'{OPT}.get_parser :: validator wraps the configured parser', ok,
            'parser._config_file_parser = ValidatorParser(parser._config_file_parser, parser)' if ok else 'the validator is not installed on the parser', gp.loc)
@@ -76,7 +78,8 @@ def run(repo: Repo, chk: Check, thorough: bool = False) -> None:
         raise AnalysisError('ValidatorParser.parse: loop over the parsed items not found')
     kv = norm(loop.target.elts[0])
     look = [c for c in calls_in(vpp) if call_name(c) == 'get' and 'known_config_keys' in norm(c.func)]
-    store = [n for n in vpp.walk() if isinstance(n, ast.Assign) and any(isinstance(t, ast.Subscript) and norm(t.value) == 'new_data' for t in n.targets)]
+    retv = {n.value.id for n in vpp.walk() if isinstance(n, ast.Return) and isinstance(n.value, ast.Name)}
+    store = [n for n in vpp.walk() if isinstance(n, ast.Assign) and any(isinstance(t, ast.Subscript) and norm(t.value) in retv for t in n.targets)]
     warn = [c for c in calls_in(vpp) if call_name(c) == 'warn']
     ok = len(look) == 1 and len(store) == 1 and norm(look[0].args[0]) == norm(store[0].targets[0].slice)  # type: ignore[attr-defined]
     chk.ob('R20.2', f'{CP}.ValidatorParser.parse :: a key is forwarded under the spelling that was validated', ok,
@@ -93,7 +96,8 @@ def run(repo: Repo, chk: Check, thorough: bool = False) -> None:
     chk.ob('R20.2', f'{CP}.ValidatorParser.parse :: unknown key -> warning, not forwarded', ok,
            'if not action: warnings.warn(...) else: new_data[key] = value' if ok else 'unknown keys are no longer warned about and dropped', vpp.loc)
     rets = [n for n in vpp.walk() if isinstance(n, ast.Return)]
-    ok = bool(rets) and all(norm(r.value) == 'new_data' for r in rets)
+    filtered = {norm(t.value) for s_ in store for t in s_.targets if isinstance(t, ast.Subscript)}
+    ok = bool(rets) and bool(filtered) and all(norm(r.value) in filtered for r in rets)
     chk.ob('R20.2', f'{CP}.ValidatorParser.parse :: returns the filtered mapping', ok, 'return new_data' if ok else 'the unfiltered data is returned', vpp.loc)
     kk = [n for n in vpp.walk() if isinstance(n, ast.DictComp) and 'get_possible_config_keys' in norm(n)]
     chk.ob('R20.2', f'{CP}.ValidatorParser.parse :: known keys come from the argument parser itself', bool(kk),
